@@ -333,6 +333,19 @@ func (c *Ctx) equalityReadsDataOnly(prefix string) {
 						}
 					}
 				case *ast.AssignStmt:
+					// hash, ok := helper(rev): the flag says whether the label parsed
+					if len(y.Lhs) == 2 && len(y.Rhs) == 1 {
+						flag, isID := y.Lhs[1].(*ast.Ident)
+						call, isCall := ast.Unparen(y.Rhs[0]).(*ast.CallExpr)
+						if isID && isCall && flag.Name != "_" && isBoolT(info.TypeOf(flag)) {
+							if h := gf.StaticCallee(info, call); h != nil {
+								if hfi := c.P.FuncInfoOf(h); hfi != nil && hfi.Pkg == fi.Pkg && c.liftedAway(hfi) && helperOf[info.ObjectOf(flag)] == nil {
+									parsed = append(parsed, flag)
+									helperOf[info.ObjectOf(flag)] = hfi
+								}
+							}
+						}
+					}
 					if len(y.Lhs) == 1 && len(y.Rhs) == 1 {
 						id, isID := y.Lhs[0].(*ast.Ident)
 						call, isCall := ast.Unparen(y.Rhs[0]).(*ast.CallExpr)
@@ -361,7 +374,11 @@ func (c *Ctx) equalityReadsDataOnly(prefix string) {
 				nFalse++
 				var conj []*gf.Formula
 				for _, id := range parsed {
-					conj = append(conj, gf.FNotNil(fn2.Term(id)))
+					if isBoolT(info.TypeOf(id)) {
+						conj = append(conj, gf.FBool(fn2.Term(id)))
+					} else {
+						conj = append(conj, gf.FNotNil(fn2.Term(id)))
+					}
 				}
 				name := fmt.Sprintf("%s: return false[%d]", s.name, nFalse)
 				if len(parsed) < 2 {
@@ -369,6 +386,16 @@ func (c *Ctx) equalityReadsDataOnly(prefix string) {
 					return true
 				}
 				c.Implies(an2.StateBefore(ret), gf.And(conj...), prefix+"-hash-label-only-when-numeric", name, ret.Pos())
+				// ... and differ: with two pointer-held hashes, `*l != *r` is a fact where false is returned
+				var ptrs []*gf.Term
+				for _, id := range parsed {
+					if pt, isPtr := info.TypeOf(id).Underlying().(*types.Pointer); isPtr {
+						ptrs = append(ptrs, gf.Deref(fn2.Term(id), pt.Elem()))
+					}
+				}
+				if len(ptrs) == 2 {
+					c.Implies(an2.StateBefore(ret), gf.FNe(ptrs[0], ptrs[1]), prefix+"-unequal-only-when-hashes-differ", name, ret.Pos())
+				}
 				return true
 			})
 			// a parsed-hash variable becomes non-nil only after a successful numeric parse: at every store of a non-nil
@@ -410,7 +437,19 @@ func (c *Ctx) equalityReadsDataOnly(prefix string) {
 					hfn.KeepDead = false
 					ast.Inspect(hfi.Decl.Body, func(x ast.Node) bool {
 						ret, ok := x.(*ast.ReturnStmt)
-						if !ok || len(ret.Results) != 1 || isNilExpr(hfi.Pkg.TypesInfo, ret.Results[0]) {
+						if !ok {
+							return true
+						}
+						switch len(ret.Results) {
+						case 1:
+							if isNilExpr(hfi.Pkg.TypesInfo, ret.Results[0]) {
+								return true
+							}
+						case 2:
+							if hfn.Formula(ret.Results[1]) == gf.False {
+								return true
+							}
+						default:
 							return true
 						}
 						c.Check(parseOK(hfi, hfn, han, ret), prefix+"-hash-label-only-when-numeric", hfi.Obj.Name()+": return "+types.ExprString(ret.Results[0]), ret.Pos(), "a non-nil parsed hash is returned only after a successful strconv parse of the label", "a parsed hash is produced without a successful numeric parse")
@@ -741,6 +780,10 @@ func (c *Ctx) createLoop() {
 		if st, ok := ast.Unparen(target).(*ast.StarExpr); ok {
 			if id, ok := st.X.(*ast.Ident); ok && types.TypeString(info.TypeOf(id), nil) == "*int32" {
 				inc = true
+				// the counter moves up: names already tried are not tried again
+				if ids, isIncDec := x.(*ast.IncDecStmt); isIncDec && ids.Tok != token.INC {
+					c.Bad("C08.4-collision-counter-moves-up", "createControllerRevision: "+types.ExprString(target)+"--", x.Pos(), "the collision counter is decremented: a later collision walks back over names that were already tried")
+				}
 				// the counter moves only on a real collision: the existing revision's data differs from the candidate's.
 				// (Counting an equal revision as a collision changes the name the same template hashes to on the
 				// next reconcile: a duplicate revision is created and the pods are restarted.)
